@@ -176,8 +176,8 @@ func (s *storeRun) randomOp(rng *mrand.Rand, fuseOK bool) {
 	h := uint64(1 + rng.Intn(3))
 	v := []string{"A", "B", "C"}[rng.Intn(3)]
 	fuse := -1
-	if fuseOK && rng.Intn(8) == 0 {
-		fuse = 0
+	if fuseOK && rng.Intn(6) == 0 {
+		fuse = rng.Intn(3) // the k-th durable write of the call does not happen: all-or-nothing must hold at every one
 	}
 	switch rng.Intn(16) {
 	case 0, 1, 2, 3:
@@ -241,6 +241,27 @@ func RunStore(c *Ctx) {
 		s.readAll()
 		w.Close()
 		c.Count("storeruns", 1)
+	}
+	// every write boundary of a block save that replaces another block (and of one that repeats it)
+	for _, second := range []string{"B", "A"} {
+		for k := 0; k <= 3; k++ {
+			for _, reopenAfter := range []bool{false, true} {
+				c.Tr.Reset(fmt.Sprintf("overwrite/%s/k%d/%v", second, k, reopenAfter), world.F{"driver": "store", "ih": 1})
+				w := world.NewWorld(c.Tr, 1, world.T0)
+				s := &storeRun{c: c, w: w, blocks: map[string]*types.SignedHeader{}, datas: map[string]*types.Data{}, byHash: map[string]string{}}
+				s.kv = world.NewCrashKV(c.Tr, "store")
+				s.st = store.New(s.kv)
+				s.call("save", 1, "A", "", "", -1)
+				s.call("save", 2, "C", "", "", -1)
+				s.call("save", 1, second, "", "", k)
+				if reopenAfter {
+					s.reopen()
+				}
+				s.readAll()
+				w.Close()
+				c.Count("storeruns", 1)
+			}
+		}
 	}
 	braw := 6
 	if c.Thorough() {
